@@ -1,3 +1,7 @@
+mod c10;
+mod c11;
+mod tables;
+
 fn main() {
-    vcore::main_with(vec![], &[]);
+    vcore::main_with(vec![c10::check(), c11::check()], &[]);
 }
